@@ -316,6 +316,12 @@ def run(chk):
               # the 4300-digit limit of int(): just below / above, with underscores not counted
               {"kind": "int", "s": "7" * 4300}, {"kind": "int", "s": "7" * 4301}, {"kind": "parse", "s": " " + "3" * 4301},
               {"kind": "int", "s": "1" * 2150 + "_" + "2" * 2150}, {"kind": "int", "s": "1" * 2151 + "_" + "2" * 2150}]
+    # every kind of numeric attribute, alone and beside a usable header (the attribute wins when it is a number)
+    for v in ({"t": "float", "v": "nan"}, {"t": "float", "v": "inf"}, {"t": "float", "v": "-inf"}, {"t": "float", "v": "-1.5"},
+              {"t": "float", "v": "0.0"}, {"t": "float", "v": "2.5"}, {"t": "int", "v": "0"}, {"t": "int", "v": "-3"},
+              {"t": "bool", "v": True}, {"t": "bool", "v": False}):
+        for hk, items in (("none", []), ("dict", [[NAME, {"t": "str", "v": "7"}]])):
+            corpus.append({"kind": "coerce", "attr": v, "headers": {"kind": hk, "items": items}, "via_response": False})
     cases = corpus + [gen_case(chk.rng) for _ in range(n)]
     obs = common.run_driver("retry_after_driver", cases, jobs=8)
     bad = [(c, o, m) for c, o in zip(cases, obs) for m in [oracle(c, o) or header_oracle(c, o)] if m]
